@@ -72,6 +72,27 @@ impl<'a> Mach<'a> {
         let r = guarded(move || { let mut y = x; y.xor_bit(k, val); V::S(y) });
         self.put(dst, Ev::new("xor_bit").n("a", a as i64).n("k", k as i64).b("val", &val.to_le_bytes()), r)
     }
+    /// GFb254 only: the two GF(2^127) components, construction from components, product by a GF(2^127) element
+    fn components(&mut self, a: usize) {
+        let x = match self.regs[a] { V::B(x) => x, _ => return };
+        let e = Ev::new("to_components").n("a", a as i64);
+        match guarded(move || { let (c0, c1) = x.to_components(); (c0.encode().to_vec(), c1.encode().to_vec()) }) {
+            Ok((c0, c1)) => self.tr.emit(e.b("c0", &c0).b("c1", &c1)),
+            Err(m) => self.tr.emit(e.s("panic", &m)),
+        }
+    }
+    fn from_b127(&mut self, dst: usize, c0: &[u8], c1: &[u8]) -> bool {
+        if self.small { return true; }
+        let (b0, b1) = (c0.to_vec(), c1.to_vec());
+        let r = guarded(move || V::B(GFb254::from_b127(GFb127::decode(&b0).unwrap(), GFb127::decode(&b1).unwrap())));
+        self.put(dst, Ev::new("from_b127").b("c0", c0).b("c1", c1), r)
+    }
+    fn mul_b127(&mut self, dst: usize, a: usize, c: &[u8], v: u32) -> bool {
+        let x = match self.regs[a] { V::B(x) => x, _ => return true };
+        let b = c.to_vec();
+        let r = guarded(move || { let s = GFb127::decode(&b).unwrap(); V::B(if v & 1 == 0 { x.mul_b127(&s) } else { let mut y = x; y.set_mul_b127(&s); y }) });
+        self.put(dst, Ev::new("mul_b127").n("a", a as i64).b("c", c), r)
+    }
     /// GFb127 only: write the low bit of val at bit index k
     fn set_bit(&mut self, dst: usize, a: usize, k: usize, val: u32) -> bool {
         let x = match self.regs[a] { V::S(x) => x, _ => return true };
@@ -215,7 +236,7 @@ pub fn run(tr: &mut Trace, rng: &mut Rng, scripts: usize, len: usize) {
             let mut i = 0;
             while ok && i < len {
                 let (d, a, b) = (rng.below(NREG), rng.below(NREG), rng.below(NREG));
-                ok = match rng.below(24) {
+                ok = match rng.below(25) {
                     0 | 1 => m.bin("add", d, a, b, rng.u64() as u32), 2 | 3 | 4 => m.bin("mul", d, a, b, rng.u64() as u32),
                     5 => m.bin("div", d, a, b, 0), 6 => m.bin("sub", d, a, b, 0),
                     7 => m.un(*rng.pick(&["square", "invert", "sqrt", "neg"]), d, a, 0),
@@ -235,6 +256,12 @@ pub fn run(tr: &mut Trace, rng: &mut Rng, scripts: usize, len: usize) {
                     20 => { let np = *rng.pick(&[16usize, 8, 4]); m.lookup(np, *rng.pick(&[0u32, 1, (np - 1) as u32, np as u32, (np + 1) as u32, 255, 1 << 31, u32::MAX]), false); true }
                     21 => { m.lookup(4, rng.below(4) as u32, true); true }
                     22 => { let np = *rng.pick(&[16usize, 8, 4]); m.lookup(np, rng.below(np) as u32, false); true }
+                    23 if !small => {
+                        let mk = |rng: &mut Rng| { let mut c = match rng.below(4) { 0 => vec![0u8; 16], 1 => vec![0xFFu8; 16], 2 => { let mut t = vec![0u8; 16]; t[0] = 1; t }, _ => rng.bytes(16) }; c[15] &= 0x7F; c };
+                        let (c0, c1) = (mk(rng), mk(rng));
+                        m.components(a);
+                        m.from_b127(d, &c0, &c1) && m.mul_b127(b, a, &c1, rng.u64() as u32)
+                    }
                     _ => m.raw(d, &rng.bytes(n)),
                 };
                 i += 1;
